@@ -167,7 +167,7 @@ func DecodeSencSR(hdr BoxHeader, startPos uint64, sr bits.SliceReader) (Box, err
 	flags := versionAndFlags & flagsMask
 	sampleCount := sr.ReadUint32()
 
-	if flags&UseSubSampleEncryption != 0 && ((hdr.Size - 16) < 2*uint64(sampleCount)) {
+	if flags&UseSubSampleEncryption != 0 && (uint64(hdr.payloadLen()-8) < 2*uint64(sampleCount)) {
 		return nil, fmt.Errorf("box size %d too small for %d samples and subSampleEncryption",
 			hdr.Size, sampleCount)
 	}
